@@ -1,5 +1,5 @@
 (* Model/Uniform.v — executable model of the construction of uniform time axes in
-   nitime.timeseries (after commits ac47f31, a2201c3, 49ddd0e, 5c2f8bb, f768865, 5e20692, 4795614, 8134179):
+   nitime.timeseries (after commits ac47f31, a2201c3, 49ddd0e, 5c2f8bb, f768865, 5e20692, 4795614, 8134179, 5ab22b3):
      UniformTime.__new__ 527-712 (argument-pattern validity 559-605, attributes taken from a
        given axis 607-626, unit resolution 628-645, interval/rate derivation 647-671, duration
        673-675, casts through the TimeArray constructor 677-683, sample count and samples 693-702,
@@ -157,7 +157,7 @@ Definition derive (u : unit) (si rate dur : option pv) (len : option Z) (keep_ra
       end
   | Some s =>
       match rate, keep_rate with
-      | Some r, true => TOk (s, r)          (* TimeSeries: a rate that is already there is kept *)
+      | Some r, true => TOk (s, r)          (* a rate that is already there (inherited) is kept *)
       | _, _ =>
         match s with
         | VTime ps su =>
@@ -194,17 +194,18 @@ Definition ut_new (a : ut_args) : tres axis :=
     | Some d =>
         let ddur := Some (VTime (ax_dur d) (ax_unit d)) in
         let drate := Some (VFreq (ax_rate d)) in
+        let dsi := Some (VTime (ax_dt d) (ax_unit d)) in     (* the interval is handed over with the rate *)
         let un := match u_unit a with UArgNone => UArg (ax_unit d) | x => x end in
         match p with
-        | (false, false, false, false) => TOk (u_si a, drate, ddur, un)
+        | (false, false, false, false) => TOk (dsi, drate, ddur, un)
         | (true, false, false, false) => TOk (u_si a, u_rate a, ddur, un)
         | (false, true, false, false) => TOk (u_si a, u_rate a, ddur, un)
         | (false, false, true, false) =>
             match u_length a with
-            | Some n => TOk (u_si a, drate, Some (VTime (n * ax_dt d) (ax_unit d)), un)
+            | Some n => TOk (dsi, drate, Some (VTime (n * ax_dt d) (ax_unit d)), un)
             | None => TErr OtherError
             end
-        | (false, false, false, true) => TOk (u_si a, drate, u_duration a, un)
+        | (false, false, false, true) => TOk (dsi, drate, u_duration a, un)
         | _ => TOk (u_si a, u_rate a, u_duration a, un)
         end
     end;
@@ -220,7 +221,8 @@ Definition ut_new (a : ut_args) : tres axis :=
                     | None, None => Us
                     end
              end in
-    do sr <- derive u si rate dur (u_length a) false;
+    (* an interval next to a rate only arises by inheritance from a given axis: the rate is kept *)
+    do sr <- derive u si rate dur (u_length a) true;
     let '(si', rate') := sr in
     let t0v := match u_t0 a, u_data a with
                | Some t, _ => t
